@@ -771,4 +771,114 @@ theorem formatGeneral_isSome (P bits : Nat) (up alt : Bool) (hP : 1 ≤ P) (hP' 
           simp [fmtArgOk]; omega
         simp [h3]
 
+theorem toRadixGo_ne_nil : ∀ (fuel b n : Nat) (up : Bool) (acc : List Nat),
+    (fuel ≠ 0 ∨ acc ≠ []) → toRadixGo fuel b n up acc ≠ [] := by
+  intro fuel
+  induction fuel with
+  | zero => intro b n up acc h; simp [toRadixGo]; rcases h with h | h; exact absurd rfl h; exact h
+  | succ fuel ih =>
+    intro b n up acc _
+    unfold toRadixGo
+    split
+    · simp
+    · exact ih _ _ _ _ (Or.inr (by simp))
+
+theorem toRadix_ne_nil (b n : Nat) (up : Bool) : toRadix b n up ≠ [] :=
+  toRadixGo_ne_nil _ _ _ _ _ (Or.inl (by omega))
+
+theorem expText_eq (e : Int) : expText e = pyExpText e := by
+  unfold expText pyExpText
+  have h := toRadix_ne_nil 10 e.natAbs false
+  generalize toRadix 10 e.natAbs false = ds at h
+  cases ds with
+  | nil => exact absurd rfl h
+  | cons d ds =>
+    cases ds with
+    | nil => by_cases he : e < 0 <;> simp [he, zeros]
+    | cons d' ds =>
+      have : 2 - (d :: d' :: ds).length = 0 := by simp
+      by_cases he : e < 0 <;> simp [he, zeros]
+
+theorem removeRedundant_false (s : List Nat) : removeRedundant s false = trimFraction s := by
+  unfold removeRedundant trimFraction dropTrailing stripZeros
+  simp only [Bool.not_false, Bool.true_and]
+  split
+  · split <;> simp_all
+  · rfl
+
+theorem removeRedundant_true (s : List Nat) : removeRedundant s true = s := by
+  simp [removeRedundant]
+
+/-- The digit text of a float conversion equals the C `printf` reference on the same correctly
+    rounded digits (`PV.Dec`), provided `format!` gets a precision it accepts and the digit generator
+    returns the `P` significant digits asked for (`hlen`, only used by `%g`). -/
+theorem floatBody_eq (spec : Spec) (bits : Nat) (k : FloatKind) (up : Bool)
+    (ht : spec.ftype = .float k up) (hp : floatPrecision spec ≤ 65530)
+    (hfin : PV.Dec.isNan (bits % 2 ^ 63) = false ∧ PV.Dec.isInf (bits % 2 ^ 63) = false)
+    (hlen : ∀ P, k = .gen → P = (if floatPrecision spec = 0 then 1 else floatPrecision spec) →
+      (PV.Dec.toExpL (bits % 2 ^ 63) (P - 1)).1.length ≤ P + 1) :
+    floatBody spec bits =
+      some (pyFloatBody k up spec.flags.alt (floatPrecision spec) (bits % 2 ^ 63)) := by
+  obtain ⟨hnan, hinf⟩ := hfin
+  simp only [floatBody, ht]
+  cases k
+  · -- exp
+    have h1 : fmtArgOk (floatPrecision spec + 1) = true := by simp [fmtArgOk]; omega
+    simp [formatExponent, rustExp, h1, hnan, hinf, pyFloatBody, sci, decimalPointOrEmpty, expText_eq]
+  · -- fix
+    have h1 : fmtArgOk (floatPrecision spec) = true := by simp [fmtArgOk]; omega
+    simp [formatFixed, rustFixed, h1, hnan, hinf, pyFloatBody, decimalPointOrEmpty]
+  · -- gen
+    have hl := hlen _ rfl rfl
+    generalize hP : (if floatPrecision spec = 0 then 1 else floatPrecision spec) = P at hl ⊢
+    have hP1 : 1 ≤ P ∧ P ≤ 65530 := by subst hP; split <;> omega
+    have h1 : fmtArgOk (P - 1 + 1) = true := by simp [fmtArgOk]; omega
+    have h2 : fmtArgOk (P + 1) = true := by simp [fmtArgOk]; omega
+    simp only [formatGeneral, rustExp, rustFixed, h1, h2, if_true, hnan, hinf, pyFloatBody, sci, hP]
+    simp only [Bool.false_eq_true, if_false]
+    generalize hx : PV.Dec.toExpL (bits % 2 ^ 63) (P - 1) = mx at hl ⊢
+    obtain ⟨m, x⟩ := mx
+    simp only at hl ⊢
+    have htake : m.take (P + 1) = m := List.take_of_length_le hl
+    by_cases hc : x < -4 ∨ x ≥ (P : Int)
+    · simp only [hc, if_true, htake, expText_eq]
+      cases halt : spec.flags.alt
+      · simp [removeRedundant_false, decimalPointOrEmpty]
+      · have : (P - 1 = 0) = (P = 1) := by apply propext; omega
+        simp [removeRedundant_true, decimalPointOrEmpty, this]
+    · simp only [hc, if_false]
+      have h3 : fmtArgOk ((P : Int) - 1 - x).toNat = true := by simp [fmtArgOk]; omega
+      simp only [h3, if_true]
+      cases halt : spec.flags.alt
+      · simp [removeRedundant_false, decimalPointOrEmpty]
+      · simp [removeRedundant_true, decimalPointOrEmpty]
+
+theorem expField_abs (bits : Nat) : PV.Dec.expField (bits % 2 ^ 63) = PV.Dec.expField bits := by
+  unfold PV.Dec.expField
+  omega
+
+theorem fracField_abs (bits : Nat) : PV.Dec.fracField (bits % 2 ^ 63) = PV.Dec.fracField bits := by
+  unfold PV.Dec.fracField
+  omega
+
+theorem isNan_abs (bits : Nat) : PV.Dec.isNan (bits % 2 ^ 63) = PV.Dec.isNan bits := by
+  simp only [PV.Dec.isNan, expField_abs, fracField_abs]
+
+theorem isInf_abs (bits : Nat) : PV.Dec.isInf (bits % 2 ^ 63) = PV.Dec.isInf bits := by
+  simp only [PV.Dec.isInf, expField_abs, fracField_abs]
+
+theorem floatPrecision_eq (spec : Spec) :
+    floatPrecision spec = (resolve (toPyPrec spec.prec)).getD 6 := by
+  unfold floatPrecision
+  rcases spec.prec with _ | ((p | _) | _) <;> simp [resolve, toPyPrec]
+
+theorem floatBody_nonfinite (spec : Spec) (bits : Nat) (k : FloatKind) (up : Bool)
+    (ht : spec.ftype = .float k up)
+    (h : PV.Dec.isNan (bits % 2 ^ 63) = true ∨ PV.Dec.isInf (bits % 2 ^ 63) = true) :
+    floatBody spec bits =
+      some (if PV.Dec.isNan (bits % 2 ^ 63) then nanText up else infText up) := by
+  simp only [floatBody, ht]
+  cases k <;> simp only [formatExponent, formatFixed, formatGeneral] <;>
+    rcases h with h | h <;> simp [h] <;> split <;> rfl
+
 end PV.C19
